@@ -7,7 +7,7 @@
 //! distinct) and after it was dropped (live == before, no double drop);
 //! (2) statically typed grammars over drop-tracked *tokens* on slices and streams: originals are never
 //! dropped by the parser, clones are balanced;
-//! (2b) 9 statically typed grammars whose outputs are ZERO-SIZED values with a destructor (arrays via collect_exactly and group, Vec of zero-sized elements, memoized, folds, nested) x all words over {{a,b,c}}: live counter while the result is alive == instances held by the output, back to its previous value after the drop. (3) the same drivers under Miri (leak check, double free, uninitialised reads) and ASan+LSan.
+//! (2b) 9 statically typed grammars whose outputs are ZERO-SIZED values with a destructor (arrays via collect_exactly and group, Vec of zero-sized elements, memoized, folds, nested) x all words over {{a,b,c}}: live counter while the result is alive == instances held by the output, back to its previous value after the drop. (2c) 29 statically typed parsers built from public combinators outside the grammar AST whose values are drop-tracked (collect_exactly into Box<[T;N]> and nested boxes; collect into LinkedList, VecDeque, BTreeMap, HashMap, HashSet, Box<Vec>, Cell, RefCell, (), count, enumerate; Pratt tables with tracked operands and tracked operator values; then_with_ctx / ignore_with_ctx / with_ctx with a tracked context cloned by readers; to(); into_iter() with left-over items; unwrapped(); try_map / validate; and_is / not / rewind over value-producing parsers; foldr, foldl_with; skip_until / skip_then_retry_until / via_parser recovery with value-building fallbacks; nested_in; lazy; tuple and array groups) x all words <= {} over {{a,b,x,-,+,;}}, parse and check, same ledger oracle. (3) the same drivers under Miri (leak check, double free, uninitialised reads) and ASan+LSan.
 
 use crate::classes;
 use crate::drv::*;
@@ -465,6 +465,14 @@ pub fn child_native(args: &[String]) -> i32 {
     });
     acc.merge(zacc);
 
+    // (2c)
+    let awords: Vec<String> = all_inputs(&super::c19api::ALPHABET, cx.t(4, 5)).iter().map(|w| w.iter().collect()).collect();
+    let aacc = for_each_index(32, cx.threads, 1, |acc, shard| {
+        let mine: Vec<String> = awords.iter().skip(shard).step_by(32).cloned().collect();
+        super::c19api::family(acc, &mine);
+    });
+    acc.merge(aacc);
+
     println!("ACC {}", acc.to_json());
     0
 }
@@ -497,7 +505,7 @@ pub fn run(cx: &RunCtx) -> i32 {
     }
 
     // (3)
-    crate::san::miri_job_flags(&mut acc, cx, "C19", "c19", cx.t(16, 48), cx.t(2, 8), "");
+    crate::san::miri_job_flags(&mut acc, cx, "C19", "c19", cx.t(16, 48), cx.t(4, 8), "");
     if cx.thorough() {
         crate::san::asan_job(&mut acc, cx, "C19", "c19", 400, 8, true);
     }
@@ -506,7 +514,7 @@ pub fn run(cx: &RunCtx) -> i32 {
         cx,
         acc,
         Finish {
-            rule: format!("(1) every grammar with <= {size} nodes over a class with group([..;2|3]), tuple groups, collect_exactly::<[_;2|3]> (repeated and separated_by), Vec / unit repetitions, folds, lookahead, filter/try_map, via_parser recovery and memoized() x every input <= {max_len} over {{a,b,é}}, and {n_rand} random grammars of 4..13 nodes (also validate, all recovery strategies) x 6 inputs; every node's output carries a fresh drop-tracked value created by a map(); parse and check. Ledger oracle: while the ParseResult is alive the live tracked instances are exactly those reachable from the output (each once, none already dropped); after dropping it the live count is back to its value before the call; no instance is dropped twice. (2) 11 statically typed grammars whose outputs contain the tokens themselves (Vec, [T;2], [T;3], group of an array, folds, select, memoized, recovery) over drop-tracked tokens x all {nw} words <= {} over {{a,b,c}} on &[T] (originals must stay alive, clones balanced) and on Stream (everything balanced once the stream is gone). (2b) 9 statically typed grammars whose outputs are ZERO-SIZED values with a destructor (arrays via collect_exactly and group, Vec of zero-sized elements, memoized, folds, nested) x all words over {{a,b,c}}: live counter while the result is alive == instances held by the output, back to its previous value after the drop. (3) the same drivers under Miri with leak checking (and ASan+LSan in the thorough tier). Non-trivial: runs in which values were created and dropped on abandoned / internal paths; token runs in which the parser cloned tokens", cx.t(4, 6)),
+            rule: format!("(1) every grammar with <= {size} nodes over a class with group([..;2|3]), tuple groups, collect_exactly::<[_;2|3]> (repeated and separated_by), Vec / unit repetitions, folds, lookahead, filter/try_map, via_parser recovery and memoized() x every input <= {max_len} over {{a,b,é}}, and {n_rand} random grammars of 4..13 nodes (also validate, all recovery strategies) x 6 inputs; every node's output carries a fresh drop-tracked value created by a map(); parse and check. Ledger oracle: while the ParseResult is alive the live tracked instances are exactly those reachable from the output (each once, none already dropped); after dropping it the live count is back to its value before the call; no instance is dropped twice. (2) 11 statically typed grammars whose outputs contain the tokens themselves (Vec, [T;2], [T;3], group of an array, folds, select, memoized, recovery) over drop-tracked tokens x all {nw} words <= {} over {{a,b,c}} on &[T] (originals must stay alive, clones balanced) and on Stream (everything balanced once the stream is gone). (2b) 9 statically typed grammars whose outputs are ZERO-SIZED values with a destructor (arrays via collect_exactly and group, Vec of zero-sized elements, memoized, folds, nested) x all words over {{a,b,c}}: live counter while the result is alive == instances held by the output, back to its previous value after the drop. (2c) 29 statically typed parsers built from public combinators outside the grammar AST whose values are drop-tracked (collect_exactly into Box<[T;N]> and nested boxes; collect into LinkedList, VecDeque, BTreeMap, HashMap, HashSet, Box<Vec>, Cell, RefCell, (), count, enumerate; Pratt tables with tracked operands and tracked operator values; then_with_ctx / ignore_with_ctx / with_ctx with a tracked context cloned by readers; to(); into_iter() with left-over items; unwrapped(); try_map / validate; and_is / not / rewind over value-producing parsers; foldr, foldl_with; skip_until / skip_then_retry_until / via_parser recovery with value-building fallbacks; nested_in; lazy; tuple and array groups) x all words <= {} over {{a,b,x,-,+,;}}, parse and check, same ledger oracle. (3) the same drivers under Miri with leak checking (and ASan+LSan in the thorough tier). Non-trivial: runs in which values were created and dropped on abandoned / internal paths; token runs in which the parser cloned tokens", cx.t(4, 6), cx.t(4, 5)),
             exhaustive: false,
             exhaustive_note: format!("grammars <= {size} nodes of the enumeration class x inputs <= {max_len}: complete"),
             assumptions: vec![
@@ -522,6 +530,9 @@ pub fn run(cx: &RunCtx) -> i32 {
                 ("zero_sized_value_cases".into(), 1000),
                 ("zero_sized_values_dropped_during_the_parse".into(), 1000),
                 ("token_clones_made_by_the_parser".into(), 1000),
+                ("api_family_cases".into(), 10_000),
+                ("api_family_values_dropped_during_the_parse".into(), 10_000),
+                ("api_family_values_handed_to_the_caller".into(), 10_000),
                 ("miri_processes_clean".into(), 1),
             ],
             min_evaluations: 100_000,
@@ -557,5 +568,8 @@ pub fn san_job(size: usize, seed: u64, shard: usize) -> Value {
     token_family(&mut acc, &pick[..(1 + (size > 8) as usize)]);
     let zw: Vec<String> = ["", "a", "ab", "aab", "abab", "aaaa"].iter().map(|s| s.to_string()).collect();
     zst_family(&mut acc, &zw[..(2 + size.min(4))]);
+    let aw: Vec<String> = ["", "a", "ab", "aab", "x+x", "-x;", "aba;", "x+-x", "ab;ab", "aaxb"].iter().map(|s| s.to_string()).collect();
+    let mine: Vec<String> = aw.iter().take(6 + size / 8).cloned().collect();
+    super::c19api::family_subset(&mut acc, &mine, &|pi| pi % 4 == shard % 4);
     acc.to_json()
 }
